@@ -31,7 +31,7 @@ pub fn families() -> Vec<Family> {
             "WebSocketServer lifecycle: exit cause x connection phase x serving mode for 1-32 connections; hook order/once-ness, registry presence, connect-notifies first, cancellation seen by parked handlers",
             c15_ws_lifecycle,
         )
-        .runs(2_000, 80_000)
+        .runs(20_000, 1_200_000)
         .steps(3_000_000)
         .tokio(),
     ]
@@ -243,7 +243,8 @@ fn draw_plan(mode: Mode) -> Plan {
     let cause = match phase {
         Phase::InlineRunning => pick(&[Cause::Rst, Cause::InlinePanic, Cause::InlinePanic]),
         Phase::DuringConnect => pick(&[Cause::Rst, Cause::ConnectPanic, Cause::ConnectPanic]),
-        _ => match simkernel::choose(12) {
+        _ => match simkernel::choose(13) {
+            12 => Cause::InlinePanic,
             0 | 1 => Cause::CleanClose,
             2 | 3 => Cause::Fin,
             4 => Cause::Rst,
@@ -325,8 +326,13 @@ async fn client(case: Case, sh: Arc<Shared>, conn: u64, ws: crate::families::ws_
             // nobody reads on this side: the server's writer backs up behind a full socket
             net::set_capacity(&cref, Side::B, 256);
             next_id += 1;
-            let body = serde_json::to_vec(&json!({"n": 12, "pad": 4000})).unwrap();
-            let _ = send_frame(&mut sink, &Frame::new(next_id, b"/burst", &body).with_formats(1, 2)).await;
+            // several bursts: more responses than the outbound queue (8) holds, so the reader
+            // itself ends up parked on the full queue
+            for _ in 0..12 {
+                let body = serde_json::to_vec(&json!({"n": 12, "pad": 4000})).unwrap();
+                let _ = tokio::time::timeout(Duration::from_millis(50), send_frame(&mut sink, &Frame::new(next_id, b"/burst", &body).with_formats(1, 2))).await;
+                next_id += 1;
+            }
             sleep_ms(5).await;
             if net::unread_bytes(&cref, Side::B) >= 200 {
                 case.probe("exit_with_outbound_backlog");
@@ -368,6 +374,13 @@ async fn client(case: Case, sh: Arc<Shared>, conn: u64, ws: crate::families::ws_
                 }
             }
         }
+        Cause::InlinePanic if plan.phase != Phase::InlineRunning => {
+            // an inline handler panics while another handler of this connection is parked / the
+            // queue is backed up
+            next_id += 1;
+            let body = serde_json::to_vec(&json!({"conn": conn, "act": "panic"})).unwrap();
+            let _ = tokio::time::timeout(Duration::from_secs(2), send_frame(&mut sink, &Frame::new(next_id, b"/act", &body).with_formats(1, 2))).await;
+        }
         Cause::MalformedRepe(k) => {
             simkernel::count("fault.malformed_repe_frame");
             let good = Frame::new(77, b"/echo", b"{}").with_formats(1, 2);
@@ -392,6 +405,12 @@ async fn client(case: Case, sh: Arc<Shared>, conn: u64, ws: crate::families::ws_
             let _ = tokio::time::timeout(Duration::from_secs(2), sink.send(WsMessage::Binary(bytes))).await;
         }
         _ => {}
+    }
+    if plan.cause == Cause::Survive && collector.is_none() {
+        // still not reading: the backlog must be there when the run-level event arrives
+        simkernel::count("probe.backlog_held_through_run_level_event");
+        wait_until(60_000, || RUN_END.load(Ordering::SeqCst)).await;
+        sleep_ms(pick(&[0u64, 5, 100])).await;
     }
     if collector.is_none() {
         collector = Some(spawn_collector(stream.take().unwrap(), inbox.clone()));
@@ -439,6 +458,9 @@ fn c15_ws_lifecycle(case: &Case) {
     let drain_ms = pick(&[50u64, 300, 2_000]);
     case.sample(json!({"mode": format!("{mode:?}"), "connections": nconn, "drain_timeout_ms": drain_ms,
         "plans": plans.iter().map(|p| format!("{:?}/{:?}/{:?}", p.handshake, p.phase, p.cause)).collect::<Vec<_>>()}));
+    for p in &plans {
+        case.cover("mode/handshake/phase/cause", format!("{mode:?}/{:?}/{:?}/{:?}", p.handshake, p.phase, p.cause));
+    }
     RUN_END.store(false, Ordering::SeqCst);
     let case = case.clone();
     aio::run(&case.clone(), 3_600, async move {
